@@ -270,6 +270,48 @@ fn views(_sc: &J) -> J {
             }
         }
     }
+    // serde: enum variants are keyed by the variant name; deserialize_any keeps integers integers
+    {
+        struct TupleVariant(i32, i32);
+        impl serde::Serialize for TupleVariant {
+            fn serialize<S: serde::Serializer>(&self, s: S) -> Result<S::Ok, S::Error> {
+                use serde::ser::SerializeTupleVariant;
+                let mut tv = s.serialize_tuple_variant("EnumTypeName", 0, "VariantName", 2)?;
+                tv.serialize_field(&self.0)?;
+                tv.serialize_field(&self.1)?;
+                tv.end()
+            }
+        }
+        struct StructVariant(i32);
+        impl serde::Serialize for StructVariant {
+            fn serialize<S: serde::Serializer>(&self, s: S) -> Result<S::Ok, S::Error> {
+                use serde::ser::SerializeStructVariant;
+                let mut sv = s.serialize_struct_variant("EnumTypeName", 0, "VariantName", 1)?;
+                sv.serialize_field("x", &self.0)?;
+                sv.end()
+            }
+        }
+        let shows = |v: &Value| v.as_object().map(|o| o.contains_key("VariantName") && !o.contains_key("EnumTypeName")).unwrap_or(false);
+        match (liquid_core::model::to_object(&TupleVariant(1, 2)), liquid_core::model::to_value(&TupleVariant(1, 2)),
+               liquid_core::model::to_object(&StructVariant(1)), liquid_core::model::to_value(&StructVariant(1))) {
+            (Ok(a), Ok(b), Ok(c), Ok(d)) => {
+                if !shows(&Value::Object(a.clone())) || !shows(&b) || !shows(&Value::Object(c.clone())) || !shows(&d) {
+                    return json!({"outcome": "violation", "wrapper": "serde variant naming", "got": format!("{:?} / {:?} / {:?} / {:?}", a, b, c, d)});
+                }
+            }
+            other => return json!({"outcome": "violation", "wrapper": "serde variant naming", "got": format!("{:?}", other.0.is_ok())}),
+        }
+        for n in [42i64, 9007199254740993i64, -1i64] {
+            match liquid_core::model::from_value::<serde_json::Value>(&Value::scalar(n)) {
+                Ok(j) => if j.as_i64() != Some(n) || !j.is_i64() { return json!({"outcome": "violation", "wrapper": "deserialize_any integer", "got": j.to_string()}); },
+                Err(e) => return json!({"outcome": "violation", "wrapper": "deserialize_any integer", "got": e.to_string()}),
+            }
+        }
+        match liquid_core::model::from_value::<serde_json::Value>(&Value::scalar(1.5f64)) {
+            Ok(j) => if j.as_f64() != Some(1.5) { return json!({"outcome": "violation", "wrapper": "deserialize_any float", "got": j.to_string()}); },
+            Err(e) => return json!({"outcome": "violation", "wrapper": "deserialize_any float", "got": e.to_string()}),
+        }
+    }
     let none: Option<Value> = None;
     if view_summary(&none) != view_summary(&Value::Nil) {
         return json!({"outcome": "violation", "wrapper": "None", "got": view_summary(&none)});
